@@ -154,8 +154,9 @@ func hasFeatureWithID(id b6.FeatureID, fbs []*featureBlock) bool {
 	for _, fb := range fbs {
 		ns, ok := fb.NamespaceTable.MaybeEncode(id.Namespace)
 		if ok && ns == fb.Namespaces[id.Type] {
-			_, ok := fb.Map.FindFirst(id.Value)
-			return ok
+			if _, ok := fb.Map.FindFirst(id.Value); ok {
+				return true
+			}
 		}
 	}
 	return false
